@@ -22,7 +22,7 @@ Kinds == {"request", "notification"}
 Statuses == {200, 202, 204, 302, 404, 500}
 CTypes == {"json", "sse", "other", "absent"}
 Bodies == {"resp", "respNonObj", "errResp", "batch", "notifsThenResp", "wrongId", "empty", "truncated", "nonJson", "nonUtf8", "text"}
-Encs == {"std", "noEvent", "noSpace", "crlf", "cr", "comments", "multiData"}
+Encs == {"std", "noEvent", "noSpace", "crlf", "cr", "comments", "multiData", "pingFirst"}
 Excs == {"none", "connect", "timeout", "protocol"}
 SessH == {"absent"} \cup Sessions
 
